@@ -129,8 +129,13 @@ func (server *SugarDB) keysExist(ctx context.Context, keys []string) map[string]
 
 	exists := make(map[string]bool, len(keys))
 
+	now := server.clock.Now()
 	for _, key := range keys {
-		_, ok := server.store[database][key]
+		entry, ok := server.store[database][key]
+		// A key whose deadline has passed no longer exists, whether or not it has been removed yet.
+		if ok && entry.ExpireAt != (time.Time{}) && entry.ExpireAt.Before(now) {
+			ok = false
+		}
 		exists[key] = ok
 	}
 
